@@ -35,7 +35,8 @@ Definition res_eqb_m (m o : option err) : bool :=
   res_eqb m (match o with Some EPanic => Some EDelete | x => x end).
 
 Section Eval.
-Variable faithful : bool.   (* true: lookups as the code is (C02-F1); false: after its repair *)
+Variable faithful : bool.   (* false: lookups as the code is now; true: as in the pinned commit (C02-F1) *)
+Variable fx : fixes.        (* which of fixes/C06-F3/F4/F5.diff the implementation contains *)
 
 Definition t_answers (t : tree) (probes : list (nat * str)) : list (option nat) :=
   map (fun pr => uid_of (t_find_rule faithful t (snd pr) (accepts (fst pr)))) probes.
@@ -48,7 +49,7 @@ Fixpoint t_load (st : trepo) (S : sets) : trepo * bool :=
   match S with
   | [] => (st, true)
   | (s, ds) :: r =>
-    match t_step st (Add s ds) with
+    match t_step fx st (Add s ds) with
     | (st', None) => t_load st' r
     | (st', Some _) => let (st'', _) := t_load st' r in (st'', false)
     end
@@ -72,8 +73,8 @@ Fixpoint walk (probes : list (nat * str)) (ops : list op) (obs : list step_obs)
   match ops, obs with
   | [], [] => (true, true, true)
   | o :: ops', ob :: obs' =>
-    let (tr', tres) := t_step tr o in
-    let (mr', mres) := step mr o in
+    let (tr', tres) := t_step fx tr o in
+    let (mr', mres) := step fx mr o in
     let Sreal' := real_step Sreal o (is_ok (o_res ob)) in
     let Sspec' := spec_step Sspec o in
     let (fr, fok) := t_load t_empty_repo Sreal' in
